@@ -374,6 +374,20 @@ class Report:
             self.samples.append(dict(rule=rule, key=key, loc=where, ok=bool(ok), detail=detail[:200]))
         return ok
 
+    def absorb(self, other, mapping, text, floor=None, select=None):
+        """Take the obligations of selected rules of another property's report as a rule of this one (a clause the two
+        properties share).  mapping: other's rule id -> this report's rule id.  Known findings stay attached to the other
+        property: an obligation listed there as known is not copied."""
+        known = {(k["rule"], k["key"]) for k in load_known() if k.get("property") == other.prop and k.get("status") == "known"}
+        for new in set(mapping.values()):
+            if new not in self.rules:
+                self.rule(new, text, floor=floor)
+        for o in other.obligations:
+            new = mapping.get(o["rule"])
+            if new is None or (o["rule"], o["key"]) in known or (select is not None and not select(o)):
+                continue
+            self.ob(new, f"[{other.prop} {o['rule']}] {o['key']}", o["ok"], o["detail"], o["loc"])
+
     def info(self, rule, text):
         self.infos.append(f"[{rule}] {text}")
 
